@@ -16,7 +16,7 @@ fuzz_target!(|data: &[u8]| {
     for front in FRONTS.iter() {
         for fmt in [Fmt::F64, Fmt::F32] {
             if let Err(f) = check_front(front, fmt, data, &mut st) {
-                mlv::fuzzglue::violation(&f.message);
+                mlv::fuzzglue::report(&f, &["C19"]);
             }
         }
     }
